@@ -63,7 +63,16 @@ func init() {
 	}
 }
 
-var refDir = "/verif/reference"
+// refDir: the committed reference tables live next to the checker (…/verif/reference).
+var refDir = func() string {
+	if exe, err := os.Executable(); err == nil {
+		d := filepath.Join(filepath.Dir(filepath.Dir(exe)), "reference")
+		if st, err := os.Stat(d); err == nil && st.IsDir() {
+			return d
+		}
+	}
+	return "/verif/reference"
+}()
 
 func moduleIface(t types.Type) *types.Named {
 	n, ok := t.(*types.Named)
